@@ -32,6 +32,13 @@ const AZ: std::sync::atomic::AtomicUsize = std::sync::atomic::AtomicUsize::new(0
 static RING_ADDR: [std::sync::atomic::AtomicUsize; RING] = [AZ; RING];
 static RING_LEN: [std::sync::atomic::AtomicUsize; RING] = [AZ; RING];
 
+const QN: usize = 1024;
+static Q_LOCK: std::sync::atomic::AtomicBool = std::sync::atomic::AtomicBool::new(false);
+static Q_POS: std::sync::atomic::AtomicUsize = std::sync::atomic::AtomicUsize::new(0);
+static Q_PTR: [std::sync::atomic::AtomicUsize; QN] = [AZ; QN];
+static Q_SIZE: [std::sync::atomic::AtomicUsize; QN] = [AZ; QN];
+static Q_ALIGN: [std::sync::atomic::AtomicUsize; QN] = [AZ; QN];
+
 pub struct TrackingAlloc;
 unsafe impl std::alloc::GlobalAlloc for TrackingAlloc {
     unsafe fn alloc(&self, l: std::alloc::Layout) -> *mut u8 {
@@ -45,6 +52,33 @@ unsafe impl std::alloc::GlobalAlloc for TrackingAlloc {
         p
     }
     unsafe fn dealloc(&self, p: *mut u8, l: std::alloc::Layout) {
+        // Quarantine (like ASan's): small blocks are really freed only after QN further
+        // frees, so that a dangling access into a dropped future still hits memory that
+        // nobody else owns - the lifetime detector then sees it (and the harness' own data
+        // is not what gets corrupted).  Not under cargo-fuzz, where ASan does this itself.
+        #[cfg(not(fuzzing))]
+        {
+            if l.size() <= 2048 && l.size() > 0 {
+                use std::sync::atomic::Ordering::{Acquire, Relaxed, Release};
+                while Q_LOCK.compare_exchange_weak(false, true, Acquire, Relaxed).is_err() {
+                    std::hint::spin_loop();
+                }
+                let i = Q_POS.load(Relaxed);
+                let old = (Q_PTR[i].load(Relaxed), Q_SIZE[i].load(Relaxed), Q_ALIGN[i].load(Relaxed));
+                Q_PTR[i].store(p as usize, Relaxed);
+                Q_SIZE[i].store(l.size(), Relaxed);
+                Q_ALIGN[i].store(l.align(), Relaxed);
+                Q_POS.store((i + 1) % QN, Relaxed);
+                Q_LOCK.store(false, Release);
+                if old.0 != 0 {
+                    std::alloc::System.dealloc(
+                        old.0 as *mut u8,
+                        std::alloc::Layout::from_size_align_unchecked(old.1, old.2),
+                    );
+                }
+                return;
+            }
+        }
         std::alloc::System.dealloc(p, l)
     }
     unsafe fn realloc(&self, p: *mut u8, l: std::alloc::Layout, n: usize) -> *mut u8 {
